@@ -480,7 +480,6 @@ func (e *Enc) havocNames(s *State, names []string) {
 	}
 }
 
-
 // frozenHeap: name is the heap of a field declared `frozen` (assigned only during construction,
 // checked module-wide by FRAME.frozen): no call can change it.
 func (e *Enc) frozenHeap(name string) bool {
